@@ -282,8 +282,9 @@ def entity_for(cs):
             conf["service"][ctx] = sec
         if "idp" not in conf["service"] and cs["etype"] == "idp":
             conf["service"]["idp"] = dict(base, endpoints={})
-        section = conf["service"].get("idp")
-        if section is None:               # an AA of its own: the want_* options are read from the idp context only
+        # the want_* options go into the section of the entity's own type (they are legal in "idp" and in "aa")
+        section = conf["service"].get(cs["etype"])
+        if section is None:
             section = {}
     if cs["want"] is not None:
         section["want_authn_requests_signed"] = cs["want"]
@@ -304,15 +305,29 @@ def entity_for(cs):
     return ent
 
 
-def want_truth(cs):
-    """truthiness of config.getattr('want_authn_requests_signed', 'idp') as the configuration spec implies it"""
-    if cs["etype"] == "sp" or (cs["etype"] != "idp" and "idp" not in EP_LAYOUTS[cs["eps"]]):
+def configured_want(cs):
+    """what the operator configured: truthiness of (want_authn_requests_signed, ..._only_with_valid_cert) in the
+    section of the entity's own type; an SP has no such options (config.py SP_ARGS)"""
+    if cs["etype"] == "sp":
         return False, False
     w = cs["want"]
     w = True if w == "true" else False if w == "false" else bool(w)
     o = cs["ovc"]
     o = True if o == "true" else False if o == "false" else bool(o)
     return w, o
+
+
+def want_truth(cs):
+    """the two options as the REPAIRED _parse_request reads them (proposed_fix/C10-2: in the entity's own section);
+    the model does the reading itself (Model.Request.read_options) from the sections handed to mk_cfg_now"""
+    return configured_want(cs)
+
+
+def sections_coq(cs):
+    if cs["etype"] == "sp":
+        return "[]"
+    w, o = configured_want(cs)
+    return "[(%s, (%s, %s))]" % (CTX[cs["etype"]], cbool(w), cbool(o))
 
 
 def own_endpoints(cs, service, bname):
@@ -371,11 +386,10 @@ def cfg_coq(cs, valid_certs):
     eps = "EPL_" + _ident(cs["eps"])
     if cs["etype"] == "idp" and "idp" not in EP_LAYOUTS[cs["eps"]]:
         eps = "((CIdp, []) :: %s)" % eps
-    w, o = want_truth(cs)
     only = True if cs["only_md"] is None else bool(cs["only_md"])
     vc = "None" if valid_certs is None else "(Some %s)" % clist(valid_certs, lambda n: "%d" % n)
-    return "(Build_rcfg %s %s %s %s %s NOWZ true MDL_%s %s %s %s)" % (
-        CTX[cs["etype"]], eps, cbool(w), cbool(o), cz(cs["slack"] or 0), _ident(cs["mdl"]), cbool(only), vc,
+    return "(mk_cfg_now %s %s %s %s NOWZ true MDL_%s %s %s %s)" % (
+        CTX[cs["etype"]], eps, sections_coq(cs), cz(cs["slack"] or 0), _ident(cs["mdl"]), cbool(only), vc,
         cbool(cs["dup"] == "fail"))
 
 
